@@ -1,6 +1,6 @@
 /-
 The extended model (Async/ModelExt.lean) restricted to schedules without `bump` and run without a
-hook IS the core model (Async/Model.lean), state by state: `runH_eq_run`.  So the theorems of
+hook and with nothing rejected (`Env.plain`) IS the core model (Async/Model.lean), state by state: `runH_eq_run`.  So the theorems of
 Props/C10.lean, stated for the core model, are statements about what the driver replays whenever a
 case has no hook and no source change.
 -/
@@ -8,11 +8,12 @@ import ParamVerif.Async.ModelExt
 
 namespace ParamVerif.Async
 
-theorem writeH_none (s : St) (p : Nat) (v : Int) : writeH none s p v = plainSet s p v := rfl
+theorem writeH_plain (s : St) (p : Nat) (v : Int) : writeH Env.plain s p v = some (plainSet s p v) := rfl
 
-theorem scopedUpdateH_none (s : St) (p : Nat) (v : Int) : scopedUpdateH none s p v = scopedUpdate s p v := rfl
+theorem scopedUpdateH_plain (s : St) (p : Nat) (v : Int) :
+    scopedUpdateH Env.plain s p v = (true, scopedUpdate s p v) := rfl
 
-theorem genLoopH_none (t p n : Nat) : ∀ (r : Nat) (s : St), genLoopH none t p n r s = genLoop t p n r s := by
+theorem genLoopH_plain (t p n : Nat) : ∀ (r : Nat) (s : St), genLoopH Env.plain t p n r s = genLoop t p n r s := by
   intro r
   induction r with
   | zero => intro s; rfl
@@ -24,30 +25,31 @@ theorem genLoopH_none (t p n : Nat) : ∀ (r : Nat) (s : St), genLoopH none t p 
       cases o with
       | suspended => rfl
       | raised => rfl
-      | value v => simp only [scopedUpdateH_none, ih]
+      | value v => simp only [scopedUpdateH_plain, ih]
 
-theorem stepStartH_none (c : Cfg) (s : St) (t : Nat) (x : Task) : stepStartH c none id s t x = stepStart c s t x := by
+theorem stepStartH_plain (c : Cfg) (s : St) (t : Nat) (x : Task) :
+    stepStartH c Env.plain id s t x = stepStart c s t x := by
   unfold stepStartH stepStart
-  simp only [id, writeH_none, scopedUpdateH_none, genLoopH_none]
+  simp only [id, writeH_plain, scopedUpdateH_plain, genLoopH_plain, Bool.not_true]
   rfl
 
-theorem stepWakeH_none (s : St) (t : Nat) (x : Task) (f : Fid) : stepWakeH none s t x f = stepWake s t x f := by
+theorem stepWakeH_plain (s : St) (t : Nat) (x : Task) (f : Fid) : stepWakeH Env.plain s t x f = stepWake s t x f := by
   unfold stepWakeH stepWake
-  simp only [writeH_none, scopedUpdateH_none, genLoopH_none]
+  simp only [writeH_plain, scopedUpdateH_plain, genLoopH_plain, Bool.not_true]
   rfl
 
-theorem stepReadyH_none (c : Cfg) (s : St) : stepReadyH c none id s = stepReady c s := by
+theorem stepReadyH_plain (c : Cfg) (s : St) : stepReadyH c Env.plain id s = stepReady c s := by
   unfold stepReadyH stepReady
-  simp only [stepStartH_none, stepWakeH_none]
+  simp only [stepStartH_plain, stepWakeH_plain]
   rfl
 
-theorem drainH_none (c : Cfg) : ∀ (n : Nat) (s : St), drainH c none id n s = drain c n s := by
+theorem drainH_plain (c : Cfg) : ∀ (n : Nat) (s : St), drainH c Env.plain id n s = drain c n s := by
   intro n
   induction n with
   | zero => intro s; rfl
-  | succ n ih => intro s; simp only [drainH, drain, stepReadyH_none, ih]
+  | succ n ih => intro s; simp only [drainH, drain, stepReadyH_plain, ih]
 
-theorem assignPlainH_none (s : St) (p : Nat) (v : Int) : assignPlainH none s p v = assignPlain s p v := rfl
+theorem assignPlainH_plain (s : St) (p : Nat) (v : Int) : assignPlainH Env.plain s p v = assignPlain s p v := rfl
 
 /-- a core event as an event of the extended schedule (no dependency) -/
 def Event.lift : Event → EventH
@@ -59,9 +61,9 @@ theorem rf_of_nil (sh : StH) (h : sh.refOf = []) : sh.rf = id := by
   funext t; simp [StH.rf, h]
 
 theorem applyEventH_lift (c : Cfg) (sh : StH) (ev : Event) (h : sh.refOf = []) :
-    (applyEventH c none sh ev.lift).core = applyEvent c sh.core ev ∧ (applyEventH c none sh ev.lift).refOf = [] := by
+    (applyEventH c Env.plain sh ev.lift).core = applyEvent c sh.core ev ∧ (applyEventH c Env.plain sh ev.lift).refOf = [] := by
   cases ev with
-  | tick => simp only [Event.lift, applyEventH, applyEvent, rf_of_nil sh h, drainH_none]; exact ⟨trivial, h⟩
+  | tick => simp only [Event.lift, applyEventH, applyEvent, rf_of_nil sh h, drainH_plain]; exact ⟨trivial, h⟩
   | complete t k v => exact ⟨rfl, h⟩
   | assign p src =>
     cases src with
@@ -70,10 +72,10 @@ theorem applyEventH_lift (c : Cfg) (sh : StH) (ev : Event) (h : sh.refOf = []) :
     | agen n => exact ⟨rfl, h⟩
 
 /-- without a hook and without source changes the extended model is the core model -/
-theorem runH_eq_run (c : Cfg) (evs : List Event) : (runH c none (evs.map Event.lift)).core = run c evs := by
+theorem runH_eq_run (c : Cfg) (evs : List Event) : (runH c Env.plain (evs.map Event.lift)).core = run c evs := by
   unfold runH run runFrom
   suffices ∀ sh : StH, sh.refOf = [] →
-      ((evs.map Event.lift).foldl (applyEventH c none) sh).core = evs.foldl (applyEvent c) sh.core from this _ rfl
+      ((evs.map Event.lift).foldl (applyEventH c Env.plain) sh).core = evs.foldl (applyEvent c) sh.core from this _ rfl
   induction evs with
   | nil => intro sh _; rfl
   | cons ev rest ih =>
